@@ -2,6 +2,7 @@ package world
 
 import (
 	"encoding/hex"
+	"errors"
 	"fmt"
 	"github.com/massnetorg/mass-core/massutil"
 	"massnet.org/mass-wallet/masswallet"
@@ -205,6 +206,7 @@ func (w *World) TaskStatus(role string) string {
 func (w *World) ImportStep() (bool, error) {
 	w.I.W.VerifDrainTasks()
 	fin, err := w.I.W.VerifRunImportStep(w.Wallets["C"].ID)
+	w.noteLeak(err)
 	// worker(): the task is queued again unless the step reported "finished" (a step that
 	// fails with "unexpected credit not found" is treated as finished, an aborted one is dropped)
 	w.ImportQueued = !fin && !(err != nil && (err.Error() == "unexpected credit not found" || err == masswallet.ErrTaskAbort))
@@ -221,6 +223,7 @@ func (w *World) RemoveB(pass string) error {
 func (w *World) RemoveRun() error {
 	w.I.W.VerifDrainTasks()
 	err := w.I.W.VerifRunRemove(w.Wallets["B"].ID)
+	w.noteLeak(err)
 	w.statusCache = nil
 	// worker() queues a failed removal again: CompleteTasks repeats it
 	w.RemoveFailed = err != nil
@@ -392,6 +395,15 @@ func (w *World) CheckTaskStates() []string {
 	return d
 }
 
+// noteLeak records a background step that returned while the follower was still suspended:
+// the real handle() goroutine would stay parked on sigResume for ever - no block is processed
+// any more and Stop hangs (reported by every history check through Panics).
+func (w *World) noteLeak(err error) {
+	if err != nil && errors.Is(err, masswallet.ErrVerifFollowerLeftSuspended) {
+		w.Panics = append(w.Panics, "background step left the follower suspended for good: "+err.Error())
+	}
+}
+
 // CompleteTasks lets pending import/removal work run to completion, as the worker would.
 func (w *World) CompleteTasks() error {
 	for _, role := range []string{"C", "B"} {
@@ -404,6 +416,7 @@ func (w *World) CompleteTasks() error {
 				}
 				w.I.W.VerifDrainTasks()
 				fin, err := w.I.W.VerifRunImportStep(id)
+				w.noteLeak(err)
 				if role == "C" {
 					w.ImportQueued = !fin
 				}
